@@ -384,6 +384,21 @@ CLAIMS["C08"]["text"] += (" Translator tie (harness/py2coq_cells.py; Optional[fl
                           "C08 theorems are about) on the two series at the current time.")
 
 
+def _hooks_tie():
+    import translated
+    return translated.hooks_tie()
+
+
+CLAIMS["C13"]["ties"] = (_hooks_tie,)
+CLAIMS["C13"]["technique"] += " + source-to-Gallina translator tie for the hook table (registration and the nine dispatch methods; regenerated and re-proved every run)"
+CLAIMS["C13"]["text"] += (" Translator tie (harness/py2coq_hooks.py over the insertion-ordered dict of coq/theories/HooksPy.v): the registration loop of Simulator._add_event and the "
+                          "nine _trigger_event_* methods are REGENERATED from /repo's source on every run and coq/translated/HooksC13Proofs.v is re-checked against the generated text: "
+                          "registering hooks with distinct identities one after the other and dispatching with ANY of the nine methods yields, for every time, first the hooks registered "
+                          "for every time and then those whose time list contains that time, each exactly once (a repeated entry registers once), in registration order - and that is the "
+                          "model's hooks_for, the function the C13 theorems are about (generated_dispatch_is_the_models_hooks_for). Modelled, pinned by text: which time each trigger "
+                          "uses, the table names, the class / instance filter of the market hooks; the other registries maintained by _add_event are not part of the unit.")
+
+
 def _index_tie():
     import translated
     return translated.index_tie()
